@@ -132,8 +132,8 @@ Proof.
 Qed.
 Example ex_args_typed : args_typed env0 (fs_args ex_sig) ex_args.
 Proof. unfold args_typed. typed_list. Qed.
-Example ex_outs_skippable : outs_skippable ex_sig ex_args.
-Proof. unfold outs_skippable. vm_compute outs_of. repeat constructor; vm_compute; try reflexivity; try discriminate. Qed.
+Example ex_outs_skippable : outs_small ex_sig ex_args.
+Proof. unfold outs_small. vm_compute outs_of. repeat constructor; vm_compute; try reflexivity; try discriminate. Qed.
 Example ex_outs_fresh : outs_fresh env0 ex_sig ex_args.
 Proof.
   unfold outs_fresh. vm_compute out_fields. vm_compute outs_of.
@@ -192,8 +192,8 @@ Definition fx_impl_empty : bytes -> list val -> smap -> smap -> impl_res := fun 
 Definition fx_qp := mkreq env0 fx_sig fx_args_prefilled ex_opts false 41 [79; 98; 106] 3000.
 Example fx_prefilled_typed : args_typed env0 (fs_args fx_sig) fx_args_prefilled.
 Proof. unfold args_typed. typed_list. Qed.
-Example fx_prefilled_skippable : outs_skippable fx_sig fx_args_prefilled.
-Proof. unfold outs_skippable. vm_compute outs_of. repeat constructor; vm_compute; try reflexivity; try discriminate. Qed.
+Example fx_prefilled_skippable : outs_small fx_sig fx_args_prefilled.
+Proof. unfold outs_small. vm_compute outs_of. repeat constructor; vm_compute; try reflexivity; try discriminate. Qed.
 Example fx_empty_typed : results_typed env0 fx_sig (results ex_ret fx_outs_empty).
 Proof. unfold results_typed. vm_compute rsp_fields. typed_list. Qed.
 Example fx_qp_sendable : req_sendable env0 SR MAXP fx_qp.
@@ -218,7 +218,7 @@ Proof. vm_compute. reflexivity. Qed.
 (* the instance of the full-strength value statement that the pinned code refuted now holds *)
 Theorem prefilled_out_witness :
   find_fn [fx_sig] (fs_name fx_sig) = Some fx_sig /\ sig_fine env0 2 4 fx_sig /\ args_typed env0 (fs_args fx_sig) fx_args_prefilled /\
-  outs_skippable fx_sig fx_args_prefilled /\ results_typed env0 fx_sig (results ex_ret fx_outs_empty) /\
+  outs_small fx_sig fx_args_prefilled /\ results_typed env0 fx_sig (results ex_ret fx_outs_empty) /\
   req_sendable env0 SR MAXP fx_qp /\ rsp_sendable env0 SP MAXP (ok_reply env0 fx_sig fx_qp ex_ret fx_outs_empty ex_rc ex_rs) /\
   fst (call env0 SR SP MAXP fx_impl_empty (filters_of inv_res ex_pc) (filters_of disp_res ex_ps) [fx_sig] fx_sig fx_args_prefilled ex_opts false 41 [79; 98; 106] 3000)
   = COk ex_ret fx_outs_empty [ex_rc; ex_rs].
